@@ -1,4 +1,5 @@
 import AmrK.HeaderProofs
+import AmrK.F64Order
 import AmrK.MaxMinsProofs
 import AmrK.Codec
 import AmrK.CellHCodec
@@ -92,5 +93,23 @@ theorem minmax_tables_read_back (mins maxs : List (List Py.Bytes)) (hlen : maxs.
 theorem minmax_per_field (names : List Py.Bytes) (rows : List (List Py.Bytes)) (k : Nat) (nm : Py.Bytes) (hk : names[k]? = some nm) :
     (MaxMins.byField names rows)[k]? = some (nm, rows.map (·.getD k [])) :=
   MaxMins.byField_entry names rows k nm hk
+
+/-- **the numbers exposed are the numbers stated**: the reader exposes `float(token)` for the time, the domain bounds, the
+    cell sizes and the physical box bounds (compared attribute by attribute with an independent parse); the driver decides for
+    every such token of every generated header (`F64.tokenOK`: exact rational of the decimal text `F64.decimalValue`, exact value
+    `F64.mag` of the bit pattern, the two neighbouring patterns, ties to even) that those bits are the correctly rounded double.
+    Soundness of that test: accepted bits are at least as close to the stated value as every finite double of that sign.
+    It rests on `F64.mag_strictMono`: among finite non-negative doubles the value grows strictly with the bit pattern. -/
+theorem exposed_float_is_nearest_double (q : Rat) (w : Nat) (h : F64.nearestC q w = true) :
+    w < F64.infBits ∧ ∀ v, v < F64.infBits → |F64.mag w - q| ≤ |F64.mag v - q| :=
+  F64.nearestC_sound q w h
+
+theorem double_order_is_bit_order (a b : Nat) (hab : a < b) (hb : b < F64.infBits) : F64.mag a < F64.mag b :=
+  F64.mag_strictMono a b hab hb
+
+example : F64.tokenOK "0.1".toUTF8.toList 0x3FB999999999999A = some true ∧
+    F64.tokenOK "0.1".toUTF8.toList 0x3FB999999999999B = some false ∧
+    F64.tokenOK "-1.5e-3".toUTF8.toList 0xBF589374BC6A7EFA = some true ∧
+    F64.tokenOK "5e-324".toUTF8.toList 1 = some true := by decide +kernel
 
 end C02
